@@ -158,8 +158,33 @@ class Flow:
             rc, _, _ = self.run(['list-snapshots', '-r', self.repo, '-K', u['keyfile'], '-p', r.choice(others), '--no-cache', '-q',
                                  '--ignore-config'], expect_ok=False)
             u['wrong_password_rc'] = rc
-        f['objects_before_gc'] = sorted(data_objects(self.repo))
         f['config'] = data_objects(self.repo).get('config')
+        # garbage collection through the command line: a delete by the printed name, a refused delete of somebody else's
+        # snapshot, then clean - each bracketed by images of the directory
+        f['gc'] = []
+        for u in f['users'].values():
+            u['snapshots_at_listing'] = list(u.get('snapshots', []))
+        names = [n for n in f['users'] if f['users'][n].get('snapshots')]
+        r.shuffle(names)
+        for name in names[:2]:
+            u = f['users'][name]
+            own = [refimpl.parse_snapshot_location(p)[0] for p in u['snapshots']]
+            victim = r.choice(own)
+            before = data_objects(self.repo)
+            rc, _, err = self.run(['delete', victim, '-y'] + self.base(name), what=f'{name} delete')
+            f['gc'].append({'op': 'delete', 'user': name, 'snapshot': victim, 'rc': rc, 'before': before,
+                            'after': data_objects(self.repo)})
+            u['snapshots'] = [p for p in u['snapshots'] if refimpl.parse_snapshot_location(p)[0] != victim]
+            others = [(n2, p) for n2, u2 in f['users'].items() if n2 != name for p in u2.get('snapshots', [])]
+            if others:
+                n2, p2 = r.choice(others)
+                before = data_objects(self.repo)
+                rc, _, _ = self.run(['delete', refimpl.parse_snapshot_location(p2)[0], '-y'] + self.base(name), expect_ok=False)
+                f['gc'].append({'op': 'foreign-delete', 'user': name, 'owner': n2, 'rc': rc, 'before': before,
+                                'after': data_objects(self.repo)})
+            before = data_objects(self.repo)
+            rc, _, _ = self.run(['clean'] + self.base(name), what=f'{name} clean')
+            f['gc'].append({'op': 'clean', 'user': name, 'rc': rc, 'before': before, 'after': data_objects(self.repo)})
         return f
 
 
@@ -177,7 +202,7 @@ def keys_view(facts):
 
 
 def dumps_facts(facts):
-    return json.dumps({k: v for k, v in facts.items() if k != 'config'}, default=lambda o: repr(o)[:80])[:4000]
+    return json.dumps({k: v for k, v in facts.items() if k not in ('config', 'gc')}, default=lambda o: repr(o)[:80])[:4000]
 
 
 # -- the intended relationships (from the modes asked for on the command line, not from what was produced) ---------------
@@ -261,7 +286,7 @@ def judge_access(facts, truth):
     """C06: what each user lists, reads and restores follows the key relationships."""
     v = []
     fam, grp = families_and_groups(facts)
-    snaps_of = {n: [_snap_name(p) for p in u.get('snapshots', [])] for n, u in facts['users'].items()}
+    snaps_of = {n: [_snap_name(p) for p in u.get('snapshots_at_listing', u.get('snapshots', []))] for n, u in facts['users'].items()}
     for name, u in facts['users'].items():
         if 'listed' not in u:
             continue
@@ -276,7 +301,7 @@ def judge_access(facts, truth):
         readable_users = [n for n in facts['users'] if grp[n] == grp[name]]
         want_files = {}
         for n in readable_users:
-            if facts['users'][n].get('snapshots'):
+            if facts['users'][n].get('snapshots_at_listing', facts['users'][n].get('snapshots')):
                 want_files.update(truth['common'])
                 want_files.update(truth.get(n, {}))
         if u.get('restore_rc') != 0:
@@ -308,7 +333,9 @@ def run_case(seed, facet):
             return {'verdict': 'inconclusive', 'note': 'command-line child watchdog', 'classes': [], 'counters': {}}
         counters = {'cli_flows': 1, 'cli_commands': fl.n_commands, 'cli_users': len(facts['users'])}
         setup_failures = [f for f in facts['failures']]
-        if facet == 'keys':
+        if facet == 'gc':
+            found = judge_gc(facts)
+        elif facet == 'keys':
             found = judge_keys(facts)
         elif facet == 'storage':
             found = judge_storage(facts)
@@ -326,3 +353,56 @@ def run_case(seed, facet):
         return {'verdict': 'violated' if violations else 'held', 'classes': classes, 'counters': counters, 'violations': violations}
     finally:
         shutil.rmtree(scratch, ignore_errors=True)
+
+
+def judge_gc(facts):
+    """C08 (and the refusal clause of C06): delete / clean through the command line remove exactly what they should."""
+    v = []
+    refs = keys_view(facts)
+    fam, _ = families_and_groups(facts)
+    for step in facts.get('gc', []):
+        ref = refs.get(step['user'])
+        if isinstance(ref, Exception) or ref is None:
+            continue
+        before, after = step['before'], step['after']
+        removed = sorted(set(before) - set(after))
+        added_or_changed = sorted(n for n in after if after[n] != before.get(n))
+        mine = lambda n: (n.startswith('data/') and ref.owns_chunk_location(n)) or (n.startswith('snapshots/') and ref.owns_snapshot_location(n))   # noqa: E731
+        foreign_removed = [n for n in removed if not mine(n)]
+        if added_or_changed:
+            v.append({'what': f'`replicat {step["op"]}` wrote or changed objects', 'objects': added_or_changed[:3], 'user': step['user']})
+        if foreign_removed:
+            v.append({'what': f'`replicat {step["op"]}` removed objects that do not belong to the caller\'s key family', 'objects': foreign_removed[:3],
+                      'user': step['user']})
+        if step['op'] == 'foreign-delete':
+            if removed:
+                v.append({'what': 'a delete of another user\'s snapshot removed objects', 'objects': removed[:3], 'user': step['user'],
+                          'owner': step['owner'], 'exit': step['rc']})
+            continue
+        if step['rc'] != 0:
+            v.append({'what': f'`replicat {step["op"]}` failed (exit {step["rc"]})', 'user': step['user']})
+            continue
+        try:
+            refd_after, _ = refimpl.referenced_locations(ref, after)
+            refd_before, snaps_before = refimpl.referenced_locations(ref, before)
+        except refimpl.FormatError as e:
+            v.append({'what': f'objects of the family no longer decode after `replicat {step["op"]}`: {e}', 'user': step['user']})
+            continue
+        family_chunks_after = {n for n in after if n.startswith('data/') and ref.owns_chunk_location(n)}
+        if step['op'] == 'delete':
+            gone = [n for n in before if n.startswith('snapshots/') and refimpl.parse_snapshot_location(n)[0] == step['snapshot']]
+            if any(n in after for n in gone):
+                v.append({'what': '`replicat delete <printed name>` left the snapshot object in place', 'user': step['user']})
+            only_victim = (refd_before - refd_after) & set(before)
+            left = sorted(only_victim & set(after))
+            if left:
+                v.append({'what': f'after `replicat delete` {len(left)} chunk(s) referenced only by the deleted snapshot remain', 'objects': left[:3],
+                          'user': step['user']})
+            lost = sorted((refd_after & set(before)) - set(after))
+            if lost:
+                v.append({'what': 'after `replicat delete` a chunk still referenced by a remaining snapshot is gone', 'objects': lost[:3], 'user': step['user']})
+        else:
+            if family_chunks_after != refd_after & set(after) or refd_after - set(after):
+                v.append({'what': 'after `replicat clean` the family\'s chunk objects are not exactly the referenced ones',
+                          'orphans': sorted(family_chunks_after - refd_after)[:3], 'missing': sorted(refd_after - set(after))[:3], 'user': step['user']})
+    return v
